@@ -37,9 +37,18 @@ def _execute(arg, want_info=False):
     signal.setitimer(signal.ITIMER_VIRTUAL, 5)
     try:
         with errors.capture() as captured:
-            parsed = [U.enc_command(c) for c in bst.parse_stream(io.StringIO(text))]
+            # the parser belongs to C15; if it rejects or reads the generated source differently, that is an
+            # outcome of this case (compared with the model), not a failure of the check
+            try:
+                parsed = [U.enc_command(c) for c in bst.parse_stream(io.StringIO(text))]
+            except PybtexError:
+                return [1], info
+            except U.Timeout:
+                return [3], info
+            except Exception:
+                return [2], info
             if parsed != cmds:
-                raise U.HarnessBug('generated AST and parsed .bst differ: %r vs %r' % (cmds, parsed))
+                return [4], info      # the parsed script is not the generated AST
 
             class Probe(object):
                 """stands in interpreter.vars for a built-in, to see its operands / its reports"""
@@ -113,7 +122,7 @@ def _needs_run(cmds):
 def _oracle_data(arg):
     try:
         _, info = _execute(arg, want_info=True)
-    except U.Timeout:
+    except Exception:
         return ([], [])
     return (info['reads'], U.fmt_table(info['fmt']))
 
@@ -166,14 +175,14 @@ def extra_checks(ck, tier, rng):
     cases = [(st, arg) for (st, fn, arg) in _CASES if st not in ('exhaustive', 'exhaustive4')]
     verdicts = ck.model.run([(2, [arg[0]]) for (_, arg) in cases], ck.rundir)
     acc = [(st, arg) for (st, arg), v in zip(cases, verdicts) if v[:1] == [1]]
-    outs = run_impl({1: impl_run}, [(1, arg) for (_, arg) in acc])
+    outs = [p[0] if isinstance(p, tuple) else p for p in run_impl({1: impl_run}, [(1, arg) for (_, arg) in acc])]
     per = Counter(); accd = Counter(); kinds = Counter()
     for st, _ in cases: per[st] += 1
     fails = []
     for (st, arg), o in zip(acc, outs):
         accd[st] += 1
-        kinds[{0: 'ended normally', 1: 'BibTeX error', 2: 'foreign exception', 3: 'did not end'}.get(o[0], '?')] += 1
-        if o[0] == 2:
+        kinds[{0: 'ended normally', 1: 'BibTeX error', 2: 'foreign exception', 3: 'did not end'}.get(o[0] if o and isinstance(o[0], int) else -1, 'other')] += 1
+        if o[:1] == [2]:
             fails.append((describe(1, arg), 'accepted by the type checker, yet the implementation raised a foreign exception', True))
     yield {'name': 'welltyped_no_crash_on_impl', 'evaluations': len(cases), 'failures': fails[:5],
            'info': {'accepted_by_stream': {k: '%d/%d' % (accd[k], per[k]) for k in sorted(per)}, 'outcomes_of_accepted': dict(kinds)}}
@@ -218,18 +227,3 @@ def nontrivial(fn, arg, out):
     return out[0] == 0 and bool(out[1][0] or out[1][1] or out[1][3] or out[1][8])
 
 from props.c03_oracle import oracle
-
-# ----------------------------------------------------------------------------------------
-# known finding: chr() raises OverflowError (not ValueError) beyond the C int range, and builtins.py only turns
-# ValueError into a BibTeXError
-def _sig_overflow(kind, fn, arg, detail):
-    import re
-    if kind != 'oracle' or not isinstance(detail, str):
-        return False
-    m = re.match(r'int\.to\.chr\$ of (-?\d+) \(not a character code\) must be reported as a BibTeX error; a Python exception escaped', detail)
-    return bool(m) and not (-2**31 <= int(m.group(1)) < 2**31)
-KNOWN_SIGNATURES = {'C03-F1': _sig_overflow}
-
-def replay_known(finding):
-    arg = norm(finding['pinned']['arg'])
-    return oracle(1, arg, impl_run(arg))
